@@ -13,6 +13,7 @@ import contextlib
 import io
 import os
 import shutil
+import weakref
 
 from simlib import sched as S
 
@@ -30,6 +31,10 @@ _REAL = {
 
 _ACTIVE: "FS | None" = None
 _COUNTER = [0]
+
+
+class SimCrash(BaseException):
+    """The simulated process was killed: nothing it does reaches the disk."""
 
 
 def real_open(*a, **kw):
@@ -51,11 +56,15 @@ class ChunkingFileIO(io.FileIO):
         super().__init__(path, mode)
         self._fs = fs
         self._vpath = path
+        self._killed = False
+        fs.open_files.add(self)
 
     def write(self, b) -> int:  # type: ignore[override]
         fs = self._fs
         mv = memoryview(b).cast("B")
         n = len(mv)
+        if self._killed:
+            return n  # buffered bytes of a killed process never reach the disk
         k = fs.chunk_len(n)
         written = super().write(mv[:k])
         fs.effect("write", self._vpath, written)
@@ -64,7 +73,8 @@ class ChunkingFileIO(io.FileIO):
     def close(self) -> None:
         if not self.closed:
             super().close()
-            self._fs.effect("close_w", self._vpath, 0)
+            if not self._killed:
+                self._fs.effect("close_w", self._vpath, 0)
 
 
 class ShortReadFileIO(io.FileIO):
@@ -108,6 +118,9 @@ class FS:
         self.n_effects = 0
         self.keep_log = True
         self.in_hook = False
+        self.fail_reads: dict[str, int] = {}  # rel path -> errno to raise
+        self.dead = False  # the simulated writer process has been killed
+        self.open_files = weakref.WeakSet()
 
     # ------------------------------------------------------------ plumbing
     def inside(self, path) -> bool:
@@ -147,6 +160,21 @@ class FS:
         if r < 0.5:
             return 1
         return self.rng.randrange(1, n + 1)
+
+    def kill(self) -> None:
+        """Process death: from now on no operation of the (dead) process
+        reaches the disk; data buffered in its open files is lost."""
+        self.dead = True
+        for f in list(self.open_files):
+            f._killed = True  # pylint: disable=protected-access
+
+    def revive(self) -> None:
+        """A new process starts on whatever is on disk."""
+        self.dead = False
+
+    def _check_alive(self, path) -> None:
+        if self.dead and not self.suspend and self.inside(path):
+            raise SimCrash()
 
     @contextlib.contextmanager
     def suspended(self):
@@ -188,6 +216,8 @@ class FS:
             return _REAL["open"](file, mode, buffering, encoding, errors,
                                  newline, closefd, opener)
         path = os.fspath(file)
+        if self.dead:
+            raise SimCrash()
         writing = any(c in mode for c in "wax+")
         binary = "b" in mode
         if writing:
@@ -212,6 +242,15 @@ class FS:
             text.mode = mode
             return text
         # reading
+        if self.fail_reads:
+            err = self.fail_reads.get(self.rel(path))
+            if err:
+                self.faults["read_errno_%d" % err] = self.faults.get(
+                    "read_errno_%d" % err, 0) + 1
+                s = S.current()
+                if s is not None:
+                    s.yield_("fs.open_r.fail")
+                raise OSError(err, os.strerror(err), path)
         if self.track_reads:
             self.read_event(path)
         if self.short_read and binary and buffering == 0:
@@ -232,30 +271,35 @@ class FS:
             s.yield_("fs.open_r")
 
     def _replace(self, src, dst, **kw):
+        self._check_alive(dst)
         r = _REAL["replace"](src, dst, **kw)
         if not kw and self.inside(dst):
             self.effect("replace", dst, self.rel(src))
         return r
 
     def _rename(self, src, dst, **kw):
+        self._check_alive(dst)
         r = _REAL["rename"](src, dst, **kw)
         if not kw and self.inside(dst):
             self.effect("replace", dst, self.rel(src))
         return r
 
     def _mkdir(self, path, *a, **kw):
+        self._check_alive(path)
         r = _REAL["mkdir"](path, *a, **kw)
         if "dir_fd" not in kw and self.inside(path):
             self.effect("mkdir", path, 0)
         return r
 
     def _unlink(self, path, **kw):
+        self._check_alive(path)
         r = _REAL["unlink"](path, **kw)
         if not kw and self.inside(path):
             self.effect("unlink", path, 0)
         return r
 
     def _rmdir(self, path, **kw):
+        self._check_alive(path)
         r = _REAL["rmdir"](path, **kw)
         if not kw and self.inside(path):
             self.effect("rmdir", path, 0)
